@@ -95,9 +95,9 @@ def evaluate(chk, run, cap, seed):
 def run(chk, tier, seed):
     named = case_list(tier, seed)
     npres = 2 if tier == "quick" else 3
-    cap = 3000 if tier == "quick" else 30000
+    cap = 3000 if tier == "quick" else 8000
     pres = [le.presentation(seed, i) for i in range(npres)]
-    lr = le.LearnRun(named, (2,), pres, seed=seed, max_jobs=400 if tier == "quick" else 2000).run()
+    lr = le.LearnRun(named, (2,), pres, seed=seed, max_jobs=400 if tier == "quick" else 500).run()
     ntr, sampled = evaluate(chk, lr, cap, seed)
     ok = [r for r in lr.records if r["ast"] is not None]
     chk.samples = [lr.sample(r) for r in (ok[len(ok) // 2:len(ok) // 2 + 1] + ok[-1:])]
